@@ -87,6 +87,35 @@ func runCallBind(args []*Sexp) *Sexp {
 
 // invokeGlobals returns globals with Go callbacks that call script functions through Invokers.
 func invokeGlobals(pooled bool) ugo.Map {
+	return invokeGlobalsKept(pooled, false)
+}
+
+// kept: one Invoker per script function for the whole run (its child VM is re-used by every call)
+func invokeGlobalsKept(pooled, kept bool) ugo.Map {
+	invokers := map[ugo.Object]*ugo.Invoker{}
+	if kept {
+		return ugo.Map{
+			"invoke": &ugo.Function{Name: "invoke", ValueEx: func(c ugo.Call) (ugo.Object, error) {
+				if c.Len() < 1 {
+					return ugo.Undefined, ugo.ErrWrongNumArguments
+				}
+				fn := c.Get(0)
+				var args []ugo.Object
+				for i := 1; i < c.Len(); i++ {
+					args = append(args, c.Get(i))
+				}
+				inv := invokers[fn]
+				if inv == nil {
+					inv = ugo.NewInvoker(c.VM(), fn)
+					if pooled {
+						inv.Acquire()
+					}
+					invokers[fn] = inv
+				}
+				return inv.Invoke(args...)
+			}},
+		}
+	}
 	return ugo.Map{
 		"invoke": &ugo.Function{Name: "invoke", ValueEx: func(c ugo.Call) (ugo.Object, error) {
 			if c.Len() < 1 {
@@ -133,7 +162,7 @@ func runInvokeTwin(args []*Sexp) *Sexp {
 		return out
 	}
 	switch mode {
-	case "direct", "callback-pooled", "callback-unpooled":
+	case "direct", "callback-pooled", "callback-unpooled", "callback-kept-pooled", "callback-kept-unpooled":
 		src := "global invoke\nout := []\n" + defs
 		for _, s := range seq {
 			src += callLine(s.List[0].Atom, callArgs(s), mode != "direct")
@@ -143,7 +172,7 @@ func runInvokeTwin(args []*Sexp) *Sexp {
 		if pan != nil || err != nil {
 			return L(A("compile-error"), A(sanitize(fmt.Sprint(err, pan))))
 		}
-		return runBytecode(bc, invokeGlobals(mode == "callback-pooled"))
+		return runBytecode(bc, invokeGlobalsKept(strings.HasSuffix(mode, "-pooled"), strings.Contains(mode, "kept")))
 	case "post-pooled", "post-unpooled":
 		names := map[string]bool{}
 		for _, s := range seq {
